@@ -142,6 +142,9 @@ type ATExpr struct {
 	K   byte // 'c' col, 'l' literal, 'a' argument
 	Col int
 	Val ATVal
+	// Wrap: the argument is written inside a function call that gives it back, COALESCE(?, NULL) — the same
+	// statement for the model, a placeholder one level further down the syntax tree for the executor
+	Wrap bool
 }
 
 type ATCond struct {
@@ -292,7 +295,11 @@ func (o *sqlOut) expr(sc *ATSchema, e *ATExpr) {
 		o.sb.WriteString(e.Val.SQL())
 		o.tok.WriteString("l" + e.Val.Tok())
 	default:
-		o.sb.WriteString("?")
+		if e.Wrap {
+			o.sb.WriteString("COALESCE(?, NULL)")
+		} else {
+			o.sb.WriteString("?")
+		}
 		fmt.Fprintf(&o.tok, "a%d.", len(o.args))
 		o.args = append(o.args, e.Val)
 	}
@@ -759,10 +766,10 @@ func genOperand(r *Rng, sc *ATSchema, c int, st *ATStmt, o ATGenOpts) *ATExpr {
 			st.Classes = append(st.Classes, "string_literal_in_where")
 			return &ATExpr{K: 'l', Val: v}
 		}
-		return &ATExpr{K: 'a', Val: v}
+		return &ATExpr{K: 'a', Val: v, Wrap: r.Chance(6)}
 	}
 	if r.Bool() {
-		return &ATExpr{K: 'a', Val: v}
+		return &ATExpr{K: 'a', Val: v, Wrap: r.Chance(6)}
 	}
 	return &ATExpr{K: 'l', Val: v}
 }
